@@ -34,6 +34,10 @@ def _h_integrand_call(em, n, args, dst):
 _ACC_OPTS = dict(operator_calls={('vpinst_Fn', 'operator()'): _h_integrand_call, ('vpinst_Map', 'operator()'): _h_map_call,
                                   ('discrete_distribution', 'operator()'): _h_selector_call})
 
+# obligations named for property X also count for the properties whose statement is composed of X (see vp/check.py)
+COMPOSED_OF = {'C03': ('C05', 'C19'), 'C04': ('C16', 'C10', 'C20'), 'C01': ('C02', 'C07', 'C17'), 'C07': ('C17', 'C01', 'C19'), 'C20': ('C12',), 'C12': ('C13',), 'C17': ('C07', 'C01', 'C09')}
+
+
 def X_qtype(n):
     import extract as _X
     return _X.qtype(n)
